@@ -59,7 +59,8 @@ def sub_nodes(root, lay, off):
     return out
 
 
-def build(d, name, sigs, init_ones):
+def build(d, name, sigs, init_ones, sels=None):
+    sels = sels if sels is not None else []
     if d[0] in ("sig", "struct", "array", "union"):
         lay = layout_of(d)
         w = lay.size if isinstance(lay, data.Layout) else lay
@@ -72,14 +73,42 @@ def build(d, name, sigs, init_ones):
         attach_objs(n)
         return n
     if d[0] == "dict":
-        ch = {k: build(x, f"{name}_{k}", sigs, init_ones) for k, x in d[1]}
+        ch = {k: build(x, f"{name}_{k}", sigs, init_ones, sels) for k, x in d[1]}
         return Node("dict", {k: c.obj for k, c in ch.items()}, children=ch)
     if d[0] == "list":
-        ch = {k: build(x, f"{name}_{k}", sigs, init_ones) for k, x in enumerate(d[1])}
+        ch = {k: build(x, f"{name}_{k}", sigs, init_ones, sels) for k, x in enumerate(d[1])}
         return Node("list", [ch[k].obj for k in range(len(ch))], children=ch)
     if d[0] == "const":
         return Node("const", d[1], const=d[1])
+    if d[0] == "proxy":
+        # ("proxy", (elem desc, ...)): Array([...])[sel] -- an ArrayProxy over Views / Signals, sel is a free input
+        from amaranth import Array
+        elems = [build(x, f"{name}_e{k}", sigs, init_ones, sels) for k, x in enumerate(d[1])]
+        sel = Signal(range(len(elems)), name=f"{name}_sel") if len(elems) > 1 else None
+        if sel is not None:
+            sels.append(sel)
+        obj = Array([e.obj for e in elems])[sel if sel is not None else Const(0, 1)]
+        return proxy_node(obj, elems, sel)
     raise ValueError(d)
+
+
+def proxy_node(obj, elems, sel):
+    n = Node("proxy", obj, width=max(e.width for e in elems), shape=Shape(max(e.width for e in elems), False))
+    n.elems, n.sel = elems, sel
+    if all(e.kind == "view" and isinstance(e.shape, data.StructLayout) for e in elems):
+        common = set.intersection(*[set(e.children) for e in elems])
+        n.children = {k: proxy_node(obj[k], [e.children[k] for e in elems], sel) for k in common}
+        n.proxy_fields = common
+    else:
+        n.proxy_fields = None
+    return n
+
+
+def resolve(n, selvals):
+    while n.kind == "proxy":
+        idx = min(selvals[id(n.sel)], len(n.elems) - 1) if n.sel is not None else 0
+        n = n.elems[idx]
+    return n
 
 
 def attach_objs(n):
@@ -104,6 +133,8 @@ def fields_of(n):
         return None
     if n.kind in ("dict", "list"):
         return set(n.children.keys())
+    if n.kind == "proxy":      # an ArrayProxy over struct Views offers the fields common to all its elements
+        return set(n.proxy_fields) if n.proxy_fields is not None else None
     return None
 
 
@@ -206,8 +237,13 @@ def value_descs(tier):
     conts += [as_container(d, True) for d in s2]
     conts += [("dict", (("a", ("const", 1)),)), ("dict", (("a", ("const", 1)), ("b", ("sig", 1)))),
               ("dict", (("c", ("sig", 1)),)), ("dict", ()), ("list", (("const", 1), ("sig", 1)))]
+    sa1 = ("struct", (("a", ("sig", 1)),))
+    sab = ("struct", (("a", ("sig", 1)), ("b", ("sig", 1))))
+    proxies = [("proxy", (sab, sa1)), ("proxy", (("sig", 1), ("sig", 1)))]      # ArrayProxy over Views / over signals
+    if tier != "quick":
+        proxies += [("proxy", (sab, sab)), ("proxy", (sa1,)), ("proxy", (("struct", (("a", sa1),)), ("struct", (("a", sa1),))))]
     out = []
-    for d in views + conts:
+    for d in views + conts + proxies:
         if d not in out:
             out.append(d)
     if tier == "quick":
@@ -256,9 +292,10 @@ def cases(tier, start, stop):
         stmts_all = []
         for fi, f in enumerate(FIELD_MODES):
             case = [pi, fi]
-            lsigs, rsigs = [], []
-            l = build(ld, f"l{fi}", lsigs, True)
-            r = build(rd, f"r{fi}", rsigs, False)
+            lsigs, rsigs, sels = [], [], []
+            l = build(ld, f"l{fi}", lsigs, True, sels)
+            r = build(rd, f"r{fi}", rsigs, False, sels)
+            rsigs = rsigs + sels          # index signals of ArrayProxies (on either side) are driven inputs
             exp = []
             try:
                 ref_assign(l, r, f, exp)
@@ -316,6 +353,7 @@ def cases(tier, start, stop):
                     continue
                 want = {id(s): (1 << len(s)) - 1 for s in ls}
                 for ln, rn in exp:
+                    ln, rn = resolve(ln, rvals), resolve(rn, rvals)      # ArrayProxy -> the element the index selects
                     if rn.kind == "const":
                         val = rn.const
                     else:
